@@ -603,6 +603,8 @@ def run_c16(ctx):
     ctx.mc("SmartClipMC", "SmartClipMC.cfg", workers=4, note="aroundBound corner tables: cyclic, mutually inverse, terminate within 7 steps, adjacent positions share a side, turn direction = orientation")
     shards = ctx.gen("smartclip")
     ctx.validate("SmartClip_Trace", shards)
+    shards = ctx.gen("smartbig", shards=1)
+    ctx.validate("SmartClip_Trace", shards, stage="SmartClip_Trace(sizes)")
     ctx.exhaustive = True
     ctx.notes.append("exhaustive part: every non-degenerate triangle of the 4x4 (5x5) grid x boxes with integer corners x both orientations (a quarter / half of the combinations by a fixed stride)")
 
